@@ -266,7 +266,7 @@ class graph(Graph):
 
     def __cut_add_vertex(self, v, mz, vaddr, mo):
         oldnode = mo.data.val
-        if oldnode == v or (oldnode.data._is_block and oldnode.data == v.data):
+        if oldnode == v or (oldnode.data._is_block and vaddr == oldnode.data.address and oldnode.data == v.data):
             # same node, or another node object for the very same block
             return oldnode
         if oldnode.data._is_block and vaddr == oldnode.data.address:
@@ -286,6 +286,14 @@ class graph(Graph):
             return self.add_vertex(v, support=overlay)
         else:
             oldnode.misc["cut"] = cutdone
+            # v may also run over the node(s) that followed the cut part of
+            # the old one: these instructions are in the graph already, so
+            # keep only the head of v:
+            i = mz.locate(vaddr)
+            if i is not None and i + 1 < len(mz._map):
+                nextnode = mz._map[i + 1].data.val
+                if vaddr + len(v) > nextnode.data.address:
+                    v.cut(nextnode.data.address)
             v = super(graph, self).add_vertex(v)  # ! avoid recursion for add_edge
             mz.write(vaddr, v)
             # successors of the block before the split (the fall-through
